@@ -52,8 +52,8 @@ class Contract:
         self.setup_code = None
 
     # -- builder API ---------------------------------------------------------------------------
-    def params(self, **kw):
-        self.param_types.update(kw); return self
+    def params(c, **kw):
+        c.param_types.update(kw); return c
 
     def returns(self, t):
         self.ret_type = t; return self
